@@ -44,6 +44,7 @@ BnodeOf(id) == CASE id = "b1" -> "_:b1" [] id = "b3" -> "_:n.1.z" [] OTHER -> "_
 \* a datatype is an IRI like any other: its scheme may be spelled like one of the prefixes the library knows by heart
 \* (geo:, xsd:, dt:, rdf: are legal - for geo: even registered - URI schemes); between angle brackets nothing is a prefix
 DtIri(sf) == CASE sf = "dtgeo" -> "geo:wkt" [] sf = "dtxsd" -> "xsd:int" [] sf = "dtdt" -> "dt:sec" [] sf = "dtrdf" -> "rdf:HTML"
+               [] sf = "dtat" -> "http://u@v.w/dt@v2"          \* '@' is an IRI character (user info, version tags): no language tag here
                [] OTHER -> IriOf("dt")
 SuffixChars(sf) == CASE sf = "none" -> <<>>
                      [] sf = "lang" -> <<"@", "e", "n">>
@@ -68,7 +69,7 @@ Lit(content, suffix) == [kind |-> "lit", id |-> "", content |-> content, suffix 
 Node(kind, id) == [kind |-> kind, id |-> id, content |-> <<>>, suffix |-> "none"]
 Subjects == {Node("iri", "i1"), Node("iri", "i2"), Node("bnode", "b1"), Node("bnode", "b3")}
 NodeObjects == {Node("iri", "i2"), Node("bnode", "b2"), Node("bnode", "b3")}
-LitSuffixes == {"none", "lang", "langreg", "langnum", "dt", "dtgeo", "dtxsd", "dtdt", "dtrdf"}
+LitSuffixes == {"none", "lang", "langreg", "langnum", "dt", "dtgeo", "dtxsd", "dtdt", "dtrdf", "dtat"}
 
 \* ---------------------------------------------------------------- string helpers
 At(s, i) == IF i >= 0 /\ i < Len(s) THEN s[i + 1] ELSE "IndexError"        \* s[i], 0-based
